@@ -445,6 +445,5 @@ def seg_const(ctx, L, rule="R-SEG-CONST", rule_seq="R-SEQ-BASE"):
             if not adv:
                 ctx.violated(rule_seq, f, inst + " advance", "packet index is not advanced on the send path", e.node)
     for mode in ("SENDING_IN_CTS", "SENDING_BM"):
-        for k in ("pad", "trunc"):
-            if (mode, k) not in found:
-                ctx.unknown(rule, "21 %s packetiser: %s path not found" % (mode, k))
+        if not any(m == mode for m, _ in found):
+            ctx.unknown(rule, "21 %s packetiser: no DT send path recognised" % mode)
